@@ -1150,7 +1150,7 @@ pub fn run(opts: &Opts) -> i32 {
     let mut ev = Evidence::new(
         PROP,
         "exploration",
-        "histories of 5-40 operations {body-only edit, interface edit (add/rename function, parameter, field, variant, struct, enum, trait, trait method, impl, inherent method, derive), revert, check, build, link over any subset/order of cores} over generated 2-5 package workspaces, interleaved (3 of 4 histories) with storage faults: crash inside a build at syscall k, power loss (lost/torn un-synced writes), bit flip / truncation / trailing garbage / empty file, single-field JSON corruption, foreign-version artifacts with recomputed hash, stale restores, swaps, a shadowing interface directory; every history ends with a fault-free rebuild + link (bounded liveness). A reference model (content-addressed registry of genuine artifacts and the interface identities they were built against) decides S1 unsafe link, S2 non-genuine artifact accepted, S3 hash faithful, L1 consistent set links and prints what its cores denote. Plus a fault_enumeration sub-space: single-field corruption of JSON nodes of every artifact of corpus and generated projects. distinct = distinct operation sequences; non-trivial = history with >= 1 edit and >= 2 links",
+        "histories of 5-40 operations {body-only edit, interface edit (add/rename function, parameter, field, variant, struct, enum, trait, trait method, impl, inherent method, derive), revert, check, build, link over any subset/order of cores} over generated 2-5 package workspaces, interleaved (3 of 4 histories) with storage faults: crash inside a build at syscall k, power loss (lost/torn un-synced writes), bit flip / truncation / trailing garbage / empty file, single-field JSON corruption, foreign-version artifacts with recomputed hash, stale restores, swaps, a shadowing interface directory; every history ends with a fault-free rebuild of every package in dependency order + link, first in place over whatever the history left in the store, then from an empty store (bounded liveness); after every fault-free successful check/build the stored artifacts are compared with what the same operation writes into an empty directory. A reference model (content-addressed registry of genuine artifacts and the interface identities they were built against) decides S1 unsafe link, S2 non-genuine artifact accepted, S3 hash faithful, L1 consistent set links and prints what its cores denote. Plus a fault_enumeration sub-space: single-field corruption of JSON nodes of every artifact of corpus and generated projects. distinct = distinct operation sequences; non-trivial = history with >= 1 edit and >= 2 links",
     );
     ev.components_real = harness::REAL_COMPONENTS.iter().map(|s| s.to_string()).collect();
     ev.components_stub = harness::STUB_COMPONENTS.iter().map(|s| s.to_string()).collect();
